@@ -35,6 +35,7 @@ def execOp (st : DrvState) (toks : List String) : DrvState × String :=
     ({ st with pipe := w' }, out)
   | "frame" :: op :: args => (st, execReader "frame" op args)
   | "udpbuf" :: op :: args => (st, execReader "udpbuf" op args)
+  | "udpwire" :: op :: args => (st, execReader "udpwire" op args)
   | "race" :: _ => (st, "skip")
   | "wire" :: _ => (st, "skip")     -- wire stage: real sockets and goroutines; oracles only
   | stream :: op :: args =>
@@ -85,6 +86,14 @@ def specOp (toks expect : List String) (impl : List String) : List String :=
       match toks, impl with
       | _ :: _ :: _ :: d :: _, "ok" :: o :: _ => (Spec.relayViolations (unhex d) (unhex o)).map (fun v => s!"{id} relayed-datagram-{v}")
       | _, _ => []
+    | "selfrelay1" =>  -- udpwire: the same for `udpwire send <datagram>`
+      match toks, impl with
+      | _ :: _ :: d :: _, "ok" :: o :: rest =>
+        (Spec.relayViolations (unhex d) (unhex o)).map (fun v => s!"{id} relayed-datagram-{v}") ++
+        (if rest.isEmpty then [] else [s!"{id} one-datagram-several-messages"])
+      | _, _ => []
+    | "accepted" =>    -- a complete well-formed datagram is decoded whatever was received before it
+      if impl.head? == some "ok" then [] else [s!"{id} well-formed-datagram-not-decoded-{impl.headD "?"}"]
     | "robust" =>
       (if impl.head? == some "panic" then [s!"{id} panic-{impl.getD 1 "?"}"] else []) ++
       (if impl.any (fun t => t.startsWith "alloc=big") then [s!"{id} allocation-out-of-proportion-{impl.getLastD "?"}"] else [])
@@ -134,7 +143,9 @@ partial def loop (ops impl : Array String) (i : Nat) (st : DrvState) (out : IO.F
       IO.println s!"SPEC {i + 1} C08 {implLine.replace " " "-"}"
       IO.println s!"SPEC {i + 1} C09 {implLine.replace " " "-"}"
       s := s + 2
-    for seg in (if implLine == "not-run" || implLine.startsWith "process-died" then [] else segs) do
+    -- "bad-op" from the implementation side = the harness file holding this op was dropped because it no longer
+    -- compiles against the tree: the op is untied (a DIFF), no oracle can be evaluated on it
+    for seg in (if implLine == "not-run" || implLine == "bad-op" || implLine.startsWith "process-died" then [] else segs) do
       -- `spec=<id> remember <tag>` / `spec=<id> sameas <tag>`: two ops must have the same implementation output
       if (words seg).getD 1 "" == "remember" then
         st'' := { st'' with prevOut := ((words seg).getD 2 "?", implLine) :: st''.prevOut.take 2000 }
